@@ -228,7 +228,7 @@ def worker(n, seed):
 def run(ctx):
     store.standard_template()
     n = core.NCPU
-    total = ctx.n(3200, 48000)
+    total = ctx.n(4800, 64000)
     dicts = core.run_sharded("vlib.props.c08", "worker",
                              [(total // n, core.derive_seed(ctx.seed, "c08", i)) for i in range(n)])
     return core.merged(PID, dicts)
